@@ -1,11 +1,12 @@
 #!/bin/sh
 # try_seed.sh <name> <worktree-with-change-applied>
-# Development helper: runs all 19 quick checks from a frozen copy of /verif against the scratch worktree (VERIF_REPO),
-# so that neither /repo nor the live /verif tree is involved.  The recorded confirmation is tools/confirm_seed.sh.
+# Development helper: runs all 19 quick checks from a frozen copy of /verif (VERIF_FROZEN, default /verif) against the
+# scratch worktree (VERIF_REPO), so that neither /repo nor the live /verif tree is involved.
+# The recorded confirmation is tools/confirm_seed.sh.
 set -u
 name=$1; wt=$2
 snap=/tmp/verif_snap_$name
-rm -rf $snap && mkdir -p $snap && rsync -a --exclude .git --exclude .cache --exclude evidence /verif/ $snap/
+rm -rf $snap && mkdir -p $snap && rsync -a --exclude .git --exclude .cache --exclude evidence ${VERIF_FROZEN:-/verif}/ $snap/
 cd $snap
 for p in C01 C02 C03 C04 C05 C06 C07 C08 C09 C10 C11 C12 C13 C14 C15 C16 C17 C18 C19; do
   VERIF_REPO=$wt ./check $p --tier quick > $snap/seed_$p.log 2>&1; rc=$?
